@@ -3,6 +3,7 @@
 //! usage: qsim <ID> [quick|thorough] [--replay FILE] [--digests N] [--run SUB IDX] [--threads N]
 //! exit: 0 held on everything explored; 1 violation (VIOLATION line printed); 2 harness error.
 
+mod cli;
 mod decider;
 mod f2;
 mod framework;
@@ -133,6 +134,7 @@ fn main() {
     }
     let code = match args.id.as_str() {
         "C05" => dispatch(&props::c05::C05, &env, &args),
+        "C06" => dispatch(&props::c06::C06, &env, &args),
         "C13" => dispatch(&props::c13::C13, &env, &args),
         "C18" => dispatch(&props::c18::C18, &env, &args),
         "C19" => dispatch(&props::c19::C19, &env, &args),
